@@ -16,8 +16,12 @@ Proof.
 Qed.
 
 (** the engine knows every function the emitted text calls *)
+Lemma known_wrap w e : known (wrap w e) = known e.
+Proof. unfold wrap. destruct (w && is_open e); reflexivity. Qed.
 Lemma known_mkbin bf x y : known x = true -> known y = true -> known (mkbin bf x y) = true.
-Proof. intros A B. unfold mkbin. destruct (bf_paren bf), (bf_self_left bf); cbn [known]; rewrite A, B; reflexivity. Qed.
+Proof.
+  intros A B. unfold mkbin. destruct (bf_paren bf), (bf_self_left bf); cbn [known]; rewrite !known_wrap, A, B; reflexivity.
+Qed.
 Lemma known_pylit b v : known (pylit b v) = true.
 Proof. destruct v, b; reflexivity. Qed.
 
@@ -33,12 +37,12 @@ Proof.
            end.
   all: try (apply known_mkbin; auto using known_pylit; destruct b; auto using known_pylit; fail).
   all: try (unfold mkun; repeat match goal with |- context [if ?x then _ else _] => destruct x end;
-            cbn [known]; auto; fail).
+            cbn [known]; rewrite ?known_wrap; auto; fail).
   all: try (match goal with E : String.eqb _ _ = true |- _ => apply String.eqb_eq in E; rewrite E end).
   all: try (destruct a; try discriminate; rewrite ?EG;
             try match goal with E : (_ =? _)%Z = true |- _ => apply Z.eqb_eq in E; rewrite E end;
             unfold offset_key; cbn [Z.eqb Z.ltb Z.compare Pos.compare known]; rewrite ?H0; reflexivity).
-  all: rewrite ?ER, ?ES, ?ESub; cbn [known knownb call2 call3 String.eqb Ascii.eqb Bool.eqb];
+  all: rewrite ?ER, ?ES, ?ESub; cbn [known knownb call2 call3 String.eqb Ascii.eqb Bool.eqb]; rewrite ?known_wrap;
        repeat (apply andb_true_intro; split); auto.
 Qed.
 
